@@ -148,7 +148,7 @@ META["C06"] = {
     "tiers": {
         "quick": {"shards": 3, "deadline_s": 300,
                   "bounds": "PLAIN (d=2), VEGAS (4 bins, d=2, alpha 1.5), MULTI-CHANNEL (3 channels, beta 1/2, min 0.01); 3 adaptive iterations of 6 calls; every non-empty subset of the 6 points of one iteration (x3 iterations); every assignment of {NaN,+inf,-inf} (weight faults: also zero densities) for subsets of size <= 4, uniform kinds above; fault from the integrand value, the value handed to projector.add, or the multi-channel weight; with and without distributions (one 1-d with 3 bins and one 2-d with 2x2 bins); 3 types"},
-        "thorough": {"shards": 3, "deadline_s": 900, "bounds": "same as quick (the enumeration is complete at this bound)"},
+        "thorough": {"shards": 3, "deadline_s": 1800, "bounds": "as quick with 8 sampled points per iteration (every non-empty subset of 8)"},
     },
     "rule": "every fault subset x kind assignment is run on the real integrators and compared with its pair (same script, zero returned at the faulted points) on the canonical field description with non_zero_calls and bin counters masked; non-trivial = every case (at least one fault); distinct = distinct (configuration, iteration, subset, kinds)",
     "assumptions": [
@@ -210,7 +210,7 @@ META["C19"] = {
     "tiers": {
         "quick": {"shards": 3, "deadline_s": 300,
                   "bounds": "iteration counts 1..4 (calls [3],[2,4],[3,1,4],[2,3,2,4]); VEGAS d=2 with default grids of 2..5 bins and a user grid, alpha in {0,0.5,1.5}; MULTI-CHANNEL default / unnormalised user weights / user weights with a zero, beta in {1/4,1}, min in {0,0.05}; execution: uninterrupted, resumed from text before the first iteration and at every split point, MPI shim with P in {1,2,3}; 3 types"},
-        "thorough": {"shards": 3, "deadline_s": 600, "bounds": "same as quick (the enumeration is complete at this bound)"},
+        "thorough": {"shards": 3, "deadline_s": 900, "bounds": "as quick with 5 iterations (calls [2,1,3,2,4]) and 4 ranks"},
     },
     "rule": "every configuration x execution mode is run on the real integrators with a scripted engine and a logging integrand; states = results whose recorded state was checked against the points actually seen, transitions = refinement steps checked against the library's refine function applied to the recorded data; distinct_nontrivial = distinct cases with at least two iterations",
     "binding": "the oracle functions are the library's own vegas_refine_pdf / multi_channel_refine_weights / vegas_icdf / discrete_distribution (their own correctness is C07/C08/C09's subject) applied to the arguments the property prescribes; the MPI runs use the re-execution environment of harness/mpienv.hpp",
@@ -225,7 +225,7 @@ META["C12"] = {
     "tiers": {
         "quick": {"shards": 3, "deadline_s": 300,
                   "bounds": "A: every calls list of length 0..4 over {2,5} x user callback answering false at every position or never x start from an empty or a 2-result checkpoint x serial / MPI shim with 1..3 ranks (a third of the lists); B: built-in callback, 4 modes x targets {0,1e-3,0.05,0.3,1} and +-1% around every relative error the run actually reaches x integrands {0, 1, +-1 alternating, NaN, NaN sometimes, linear, narrow support (iterations without any hit)} x 5 iterations, serial and MPI shim with 2 ranks; PLAIN, VEGAS, MULTI-CHANNEL; 3 types"},
-        "thorough": {"shards": 3, "deadline_s": 600, "bounds": "same as quick (the enumeration is complete at this bound)"},
+        "thorough": {"shards": 3, "deadline_s": 900, "bounds": "as quick with calls lists up to length 5 in part A"},
     },
     "rule": "every environment answer sequence of the callback (the position at which it says stop) is enumerated; states = runs judged, transitions = callback invocations judged; distinct_nontrivial = distinct cases with at least two requested iterations (A) plus all built-in cases (B)",
     "binding": "the integrators, callbacks and mpi_callback of the tree under test are executed; the reference stop index is computed in long double from the results of the same run with a never-stopping user callback",
@@ -255,7 +255,7 @@ META["C17"] = {
     "tiers": {
         "quick": {"shards": 3, "deadline_s": 400,
                   "bounds": "every sequence of 3 calls over the per-call alphabet {canonical number 0, 1/4, largest below 1 (multi-channel: coordinate in {0, largest} x channel draw in {0,1/4,largest})} x {integrand returns 0, 2, NaN} x {requests the weight itself, does not}: 18^3 (36^3) sequences; PLAIN, VEGAS uniform and grid [0,1/8,1/2,1], MULTI-CHANNEL with weights (1,1,1),(0,1,1),(1,0,1),(1,1,0),(0,0,1), and with a distribution (weight requested through the projector) for three of them; 3 types; ASan+UBSan+_GLIBCXX_ASSERTIONS"},
-        "thorough": {"shards": 3, "deadline_s": 900, "bounds": "same as quick (the enumeration is complete at this bound)"},
+        "thorough": {"shards": 3, "deadline_s": 1800, "bounds": "as quick with sequences of 4 calls for PLAIN and VEGAS (18^4)"},
     },
     "rule": "exhaustive enumeration of call sequences; the instrumented integrand and map record every invocation with arguments, buffer addresses and contents; the protocol is checked on the resulting event log; distinct = distinct (configuration, sequence); non-trivial = every sequence (each mixes at least the zero / non-zero / weight-request dimensions)",
     "assumptions": [
@@ -284,7 +284,7 @@ META["C04"] = {
     "parts": 6,
     "tiers": {
         "quick": {"shards": 6, "deadline_s": 500,
-                  "bounds": "mpi_plain / mpi_vegas / mpi_multi_channel (user weights with a disabled channel; plus, for a subset, one random number mapped to three coordinates and a single-channel integrand) x calls lists [0],[1],[2],[3],[5],[7,3],[4,4,4],[2,0,5],[1,1,1,1],[33],[64,31] x {dyadic integrand (exact sums), smooth integrand} x {no distribution, one} x {no target, target 0.35}; worlds 1,2,3 with every reduction order of every collective (P! left folds + tree, pruned by distinct reduced bytes); worlds 4,5,8,16,33 with ascending / descending / tree order; engines script, mt19937, ranlux24, minstd_rand; 3 types"},
+                  "bounds": "mpi_plain / mpi_vegas / mpi_multi_channel (user weights with a disabled channel; plus, for a subset, one random number mapped to three coordinates and a single-channel integrand) x calls lists [0],[1],[2],[3],[5],[7,3],[4,4,4],[2,0,5],[1,1,1,1],[33],[64,31] x {dyadic integrand (exact sums), smooth integrand} x {no distribution, two distributions (1-d with 3 bins, 2-d with 2x2)} x {no target, target 0.35}; worlds 1,2,3 with every reduction order of every collective (P! left folds + tree, pruned by distinct reduced bytes); worlds 4,5,8,16,33 with ascending / descending / tree order; engines script, mt19937, ranlux24, minstd_rand; 3 types"},
         "thorough": {"shards": 6, "deadline_s": 3000, "bounds": "as quick with every reduction order also for 4 ranks and every world size 5..33 in the three canonical orders"},
     },
     "rule": "stateless exploration of the MPI environment's choices: for each collective the environment chooses the order in which the ranks' contributions are combined; ranks are deterministic functions of the results received, so orders with identical reduced bytes have identical futures and one representative is continued; states = complete executions checked, transitions = rank-set executions (one per explored prefix); traces_validated_against_impl = complete executions whose per-rank logs were compared with the serial iteration of the tree under test",
